@@ -118,13 +118,17 @@ class Symbol(ExpressionToken):
             if name in compiler.symbols:
                 return compiler.symbols[name]
 
+        # The file's own definition takes precedence over an external one, and it may
+        # still follow further down the file: an external symbol is only bound once
+        # everything has been compiled.
+        not_ready()
+
         extern_mapping = compiler.extern_symbols_mapping.get(self.name)
         if extern_mapping:
             extern = compiler.symbols.get(extern_mapping[1])
             if extern:
                 return extern
 
-        not_ready()
         # TODO: check if there's a local symbol with the same name defined out of scope
         reports.error(
             "undefined-symbol",
